@@ -190,3 +190,58 @@ func verifC15_two() {
 	c.CloseNow()
 	vObserve("two", order, okCount)
 }
+
+// C15.closing: the close handshake reads the connection too. A Ping that arrives after the local Close frame went out and
+// before the peer's Close frame (the peer had not seen our Close yet) is answered with the identical payload (RFC 6455
+// 5.5.2: "unless it already received a Close frame"), and the handshake then completes: the peer's Close frame is read
+// and Close returns nil.
+func verifC15_closing() {
+	client := vParam("client", 1) == 1
+	vInstallRand()
+	mk := func(f vFrame) vFrame {
+		f.masked = !client
+		if f.masked {
+			copy(f.key[:], vBytes("key", 4))
+		}
+		return f
+	}
+	var peer []vFrame
+	var pings [][]byte
+	nPings := 1 + vChoose("pings", 2)
+	for i := 0; i < nPings; i++ {
+		p := vBytes("ping", vPingLens[vChoose("plen", vParam("plens", 3))])
+		pings = append(pings, p)
+		peer = append(peer, mk(vFrame{fin: true, opcode: 9, payload: p}))
+	}
+	peer = append(peer, mk(vFrame{fin: true, opcode: 8, payload: []byte{0x03, 0xe8}}))
+	t := vNewTransport(vEncodeFrames(peer))
+	t.endMode = vEndBlock
+	t.vGate(0, 1) // the peer's frames arrive once our Close frame is on the wire
+	c := vNewConn(t, client, nil, 16, 256)
+	err := c.Close(StatusNormalClosure, "")
+	vReach("C15.closing.returned")
+	frames, ok := vParseWritten(t.out)
+	vAssert(ok, "C15.closing.wellformed")
+	var pongs [][]byte
+	nClose := 0
+	for _, f := range frames {
+		switch f.opcode {
+		case 10:
+			pongs = append(pongs, f.payload)
+		case 8:
+			nClose++
+		}
+	}
+	pk := len(pongs) == len(pings)
+	if pk {
+		for i := range pongs {
+			pk = vAnd(pk, vEqBytes(pongs[i], pings[i]))
+		}
+	}
+	vAssert(pk, "C15.closing.ping-before-peer-close-answered")
+	vAssert(nClose == 1, "C15.closing.one-close-frame")
+	// everything the peer sent was consumed: the handshake saw the peer's Close frame
+	vAssert(t.pos == len(t.in), "C15.closing.peer-close-read")
+	vAssert(err == nil, "C15.closing.close-returns-nil-on-echo")
+	vObserve("closing", vWireSummary(t.out), err == nil)
+}
